@@ -18,7 +18,8 @@
    detector in the thorough tier. *)
 From stdpp Require Import nmap fin_maps.
 From Coq Require Import List NArith Bool.
-From P9 Require Import Gen.GenReplyTypes Model.Tags
+From Coq Require Import ZArith.
+From P9 Require Import Gen.GenReplyTypes Model.Tags Base.GoRt Gen.GenAllocTag Proofs.GenAllocTagEq
   Proofs.TagsProofsAlloc Proofs.TagsProofs Proofs.TagsProofsDeliver.
 Import ListNotations.
 Open Scope N_scope.
@@ -142,3 +143,26 @@ Print Assumptions C05_own_reply_nonvacuous.
 Print Assumptions C05_rerror.
 Print Assumptions C05_right_type.
 Print Assumptions C05_right_type_nonvacuous.
+
+(* The tie of the allocator, as a theorem: [Gen/GenAllocTag.v] is the statement-by-statement translation
+   of the CURRENT source of transport.go's allocator (harness/cmd/gen/gofn.go, regenerated before every
+   build; the Go map is seen as the list of its keys, which is all the function looks at), and the model
+   [allocate], about which C05_alloc_* and - through [hstep] - every theorem above is stated, computes
+   for every pool and every hint exactly what that translation computes, error texts included.  An edit
+   of the allocator that changes which tag it returns breaks this proof obligation. *)
+Theorem C05_source_allocateTag : forall (m : tagmap) hint, hint < 65536 ->
+  gen_allocateTag (keys m) (Z.of_N hint) =
+    match allocate m hint with
+    | inl t => Ret (Z.of_N t, None)
+    | inr EDepleted => Ret (0%Z, Some depleted_text)
+    | inr _ => Ret (0%Z, Some unexpected_text)
+    end.
+Proof. exact gen_allocateTag_eq. Qed.
+Print Assumptions C05_source_allocateTag.
+
+(* the translated source, evaluated: from hint 65533 with 65534 and 0 taken the search passes over
+   65534, skips the reserved 65535, wraps, passes over 0 and returns 1 *)
+Example C05_source_allocateTag_example :
+  gen_allocateTag [65534%Z; 0%Z] 65533%Z = Ret (1%Z, None) /\
+  allocate (<[65534 := 7]> (<[0 := 8]> ∅)) 65533 = inl 1.
+Proof. split; vm_compute; reflexivity. Qed.
